@@ -622,3 +622,13 @@ Example b_step_example :
   | _, _ => False
   end.
 Proof. vm_compute. split; reflexivity. Qed.
+
+Example jssp_b_step_example :
+  match jssp_run true ex_i (reset ex_i) [1; 2; 1] with
+  | Some sd =>
+      done sd = true /\
+      jssp_b_step true 2 [ {| r_i := ex_i; r_s := reset ex_i; r_a := 2 |}; {| r_i := ex_i; r_s := sd; r_a := 0 |} ]
+      = Some [ match jssp_step true ex_i (reset ex_i) 2 with Some x => x | None => sd end; sd ]
+  | None => False
+  end.
+Proof. vm_compute. split; reflexivity. Qed.
